@@ -51,6 +51,10 @@ fn observe<L: leptos_i18n::Locale, SL: leptos_i18n::Locale<L>>(id: u32, scoped: 
         // the three ways a deserializer may hand a string over: borrowed (above), owned, transient
         emit(id, &format!("serde_dec_value:{n}"), serde_json::from_value::<L>(serde_json::Value::String(n.to_string())).map(|x| x.as_str()).unwrap_or("<err>"));
         emit(id, &format!("serde_dec_reader:{n}"), serde_json::from_reader::<_, L>(enc.as_bytes()).map(|x| x.as_str()).unwrap_or("<err>"));
+        // compact, not self-describing formats: what is written must be what the deserialiser reads
+        emit(id, &format!("bincode:{n}"), &bincode::serialize(&l).ok().and_then(|b| bincode::deserialize::<L>(&b).ok()).map(|x| x.as_str().to_string()).unwrap_or_else(|| "<err>".into()));
+        emit(id, &format!("postcard:{n}"), &postcard::to_allocvec(&l).ok().and_then(|b| postcard::from_bytes::<L>(&b).ok()).map(|x| x.as_str().to_string()).unwrap_or_else(|| "<err>".into()));
+        emit(id, &format!("scoped_postcard:{n}"), &postcard::to_allocvec(&sl).ok().and_then(|b| postcard::from_bytes::<SL>(&b).ok()).map(|x| x.as_str().to_string()).unwrap_or_else(|| "<err>".into()));
         let escaped = format!("\"{}\"", n.chars().map(|c| format!("\\u{:04x}", c as u32)).collect::<String>());
         emit(id, &format!("serde_dec_escaped:{n}"), serde_json::from_str::<L>(&escaped).map(|x| x.as_str()).unwrap_or("<err>"));
         let c = <codee::string::FromToStringCodec as codee::Encoder<L>>::encode(&l).unwrap();
@@ -120,6 +124,7 @@ def run(tier, seed, replay=None):
         proj = {"cfg": {"default": main_set[0], "locales": listed if rng.random() < 0.7 else [l for l in listed if l != main_set[0]], "namespaces": None, "inherits": {}, "locales_dir": None},
                 "data": {(None, l): [["k", {"k": "lit", "ty": "str", "v": "v"}], ["grp", {"k": "sub", "tree": [["inner", {"k": "lit", "ty": "str", "v": "x"}]]}]] for l in main_set}}
         c = e2e.ProbeCrate("c13_%d" % ci, proj)
+        c.extra_deps = 'bincode = "1.3.3"\npostcard = { version = "1.1.3", default-features = false, features = ["alloc"] }\n' 
         c.extra_items = OBSERVE_RS + "\n".join(decl_module(i, s) for i, s in enumerate(sets[1:], 1))
         for i, s in enumerate(sets):
             others = [n for t in SETS for n in t if n not in s]
@@ -165,7 +170,7 @@ def run(tier, seed, replay=None):
             for n in names:
                 if prefix_pair:
                     res.nontriv([names, n])
-                for key in ("display", "as_ref_str", "from_str", "serde_dec", "serde_dec_value", "serde_dec_reader", "serde_dec_escaped", "codec_enc", "codec_dec", "scoped_as_str", "scoped_display", "scoped_base", "scoped_from_str"):
+                for key in ("display", "as_ref_str", "from_str", "serde_dec", "serde_dec_value", "serde_dec_reader", "serde_dec_escaped", "bincode", "postcard", "scoped_postcard", "codec_enc", "codec_dec", "scoped_as_str", "scoped_display", "scoped_base", "scoped_from_str"):
                     expect("%s:%s" % (key, n), n, "C13/%s-does-not-round-trip" % key)
                 expect("serde_enc:" + n, json.dumps(n), "C13/serde_enc-does-not-round-trip")
                 expect("scoped_serde:" + n, json.dumps(n), "C13/scoped_serde-does-not-round-trip")
